@@ -10,21 +10,30 @@ case = {
        | ['outdatum', hexcbor, form?] ],   native: [sid, ...] (the native_scripts field),
          form = 'raw' (default: the datum is handed over as RawCBOR) | 'prim' (as the Python value a user would write:
                 int, bytes, dict, IndefiniteList / list, RawPlutusData around a constructor tag — so that 0, b'', {} and
-                empty lists reach the builder as FALSY objects),
-         src = ['none'] | ['utxo', uid] | ['script', sid];   rdm = {rid, tag: null|int, data: hexcbor, units: null|[mem, steps]}
+                empty lists reach the builder as FALSY objects) | 'pdata' (a constructor as an instance of a PlutusData
+                dataclass generated for its shape, nested constructors as nested dataclasses, maps as dict fields; falls
+                back to 'prim' when that route cannot yield exactly these bytes),
+         src = ['none'] | ['utxo', uid] | ['script', sid];
+         rdm = {rid, tag: null|int, data: hexcbor, units: null|[mem, steps], form?: as above (for the redeemer data)}
   mint: [[policy hex28, [[name hex, qty], ...]], ...] (dict order),  wdrl: [[account hex29, coin], ...] (dict order),
   build: {change: hex28 key hash, use_map: bool, vstart: null|int, ttl: null|int, off_start: null|int, off_ttl: null|int,
           mem_buf: float, step_buf: float, pay: [coin, ...] plain outputs (force coin selection)},
   eval: {rid(str): [mem, steps]}   raw evaluator answers (before buffers), served by evaluate_tx_cbor keyed by the
                                     (tag, index) each redeemer carries in the transaction it is given,
-  cost_models: {'PlutusV1': {name: int}, ...} (languages may be missing)
+  cost_models: {'PlutusV1': {name: int}, ...} (languages may be missing),
+  cm_int_keys?: ['PlutusV1', ...] languages whose cost-model dict is keyed by INTEGER positions (the JSON keys are their
+                decimal strings; this is what CardanoCliChainContext._parse_cost_models makes of list-shaped models)
 }
 result = {stage: 'ops' | 'build' | 'done', op: index of the failing op, err: kind | null,
           tx: hex of build_and_sign(...).to_cbor(), wits_nodup: hex of build_witness_set(False).to_cbor(),
           rl: [[rid, tag, index, mem, steps], ...] the builder's _redeemer_list after the build,
           script_hashes: [hex28 per sid as pycardano.script_hash computes it], evals: number of evaluate calls,
           n_inputs: number of inputs of the body, dflt: hex of cbor2.dumps(plutus.COST_MODELS),
-          prim: [number of datums handed over in 'prim' form, how many of them were falsy objects]}
+          eval_ptrs: per evaluate call the sorted [tag, index] pointers of the redeemers in the transaction the evaluator was
+                     given (built by the TEMPORARY builder of _estimate_execution_units, which runs coin selection again),
+          ptrs_at_failure: (stage 'build') the sorted [tag, index] of the builder's own redeemers when build() raised,
+          prim: [number of datums handed over in 'prim' form, how many of them were falsy objects],
+          pdata: number of datums / redeemer data handed over as PlutusData dataclass instances}
 """
 from _pre import *
 from fractions import Fraction
@@ -36,7 +45,8 @@ from pycardano import (Address, Asset, AssetName, ExecutionUnits, MultiAsset, Na
 from pycardano.backend.base import ChainContext, GenesisParameters, ProtocolParameters
 from pycardano.network import Network
 
-from pycardano.plutus import COST_MODELS, RawPlutusData
+import dataclasses
+from pycardano.plutus import COST_MODELS, PlutusData, RawPlutusData
 from pycardano.serialization import default_encoder, IndefiniteList
 DFLT = cbor2.dumps(COST_MODELS, default=default_encoder).hex()      # the fallback of utils.script_data_hash
 TAGNAME = {0: 'spend', 1: 'mint', 2: 'certificate', 3: 'withdrawal', 4: 'voting', 5: 'proposing'}
@@ -53,10 +63,17 @@ def rid_of(data):
     return rid_of(list(data)[0])
 
 
+def mk_cost_models(case):
+    ints = case.get('cm_int_keys') or []
+    return {lang: ({int(k): v for k, v in cm.items()} if lang in ints else dict(cm))
+            for lang, cm in case['cost_models'].items()}
+
+
 class Ctx(ChainContext):
     def __init__(self, case, utxos):
         self.case, self.table = case, utxos
         self.evals = 0
+        self.ptrs = []                                 # per evaluate call: the (tag, index) pointers of the transaction it was given
         self._pp = ProtocolParameters(
             min_fee_constant=155381, min_fee_coefficient=44, max_block_size=73728, max_tx_size=16384,
             max_block_header_size=1100, key_deposit=2000000, pool_deposit=500000000, pool_influence=Fraction(3, 10),
@@ -65,7 +82,7 @@ class Ctx(ChainContext):
             min_pool_cost=340000000, price_mem=Fraction(577, 10000), price_step=Fraction(721, 10000000),
             max_tx_ex_mem=14000000, max_tx_ex_steps=10000000000, max_block_ex_mem=50000000,
             max_block_ex_steps=40000000000, max_val_size=5000, collateral_percent=150, max_collateral_inputs=3,
-            coins_per_utxo_word=34482, coins_per_utxo_byte=4310, cost_models=case['cost_models'],
+            coins_per_utxo_word=34482, coins_per_utxo_byte=4310, cost_models=mk_cost_models(case),
             min_fee_reference_scripts={"base": 15, "range": 25600, "multiplier": 1.2},
             maximum_reference_scripts_size={"bytes": 200000})
 
@@ -109,6 +126,7 @@ class Ctx(ChainContext):
             items = [(k[0], k[1], v[0]) for k, v in red.items()]
         else:
             items = [(r[0], r[1], r[2]) for r in red]
+        self.ptrs.append(sorted([tag, idx] for tag, idx, _ in items))
         for tag, idx, data in items:
             rid = str(rid_of(data))
             if rid in self.case['eval']:
@@ -170,24 +188,76 @@ def _parse(b, i):
 
 
 PRIM = [0, 0]                                             # per case: datums handed over in 'prim' form, falsy ones
+PDATA = [0]                                               # per case: data handed over as PlutusData dataclass instances
+_CLS = [0]
 
 
-def mk_datum(hexcbor, form):
-    """the datum as a pycardano Datum object; 'prim' = the Python value whose CBOR is hexcbor (checked), so that falsy
-    values (0, b'', {}, empty lists) reach the code under test as falsy objects"""
+def _conv(f):
+    """parsed CBOR value -> the value with every constructor replaced by a PlutusData dataclass instance"""
+    if isinstance(f, cbor2.CBORTag):
+        return to_pdata(f)
+    if isinstance(f, dict):
+        return {_conv(k): _conv(v) for k, v in f.items()}
+    if isinstance(f, IndefiniteList):
+        return IndefiniteList([_conv(x) for x in f])
+    if isinstance(f, list):
+        return [_conv(x) for x in f]
+    return f
+
+
+def to_pdata(v):
+    """CBORTag of a constructor -> instance of a PlutusData dataclass declared for it: CONSTR_ID = the constructor id,
+    one field per argument, typed int / bytes / dict / IndefiniteList / the nested dataclass"""
+    if v.tag == 102:
+        cid, fs = v.value
+    elif 121 <= v.tag < 128:
+        cid, fs = v.tag - 121, v.value
+    elif 1280 <= v.tag < 1401:
+        cid, fs = v.tag - 1280 + 7, v.value
+    else:
+        raise ValueError('not a constructor tag')
+    flds, vals = [], []
+    for i, f in enumerate(fs):
+        x = _conv(f)
+        t = type(x) if isinstance(x, (PlutusData, int, bytes, dict, IndefiniteList)) else None
+        if t is None or isinstance(x, bool):
+            raise ValueError('field shape without a PlutusData field type')
+        flds.append((f'f{i}', t)); vals.append(x)
+    _CLS[0] += 1
+    cls = dataclasses.make_dataclass(f'Gen{_CLS[0]}', flds, bases=(PlutusData,), namespace={'CONSTR_ID': cid})
+    return cls(*vals)
+
+
+def mk_data(hexcbor, form, count=True):
+    """Plutus data as the object a user hands over; 'prim' = the Python value whose CBOR is hexcbor (checked), so that
+    falsy values (0, b'', {}, empty lists) reach the code under test as falsy objects and maps as dicts in insertion
+    order; 'pdata' = PlutusData dataclass instance (checked; else as 'prim'); otherwise RawCBOR"""
     b = bytes.fromhex(hexcbor)
-    if form != 'prim':
+    if form not in ('prim', 'pdata'):
         return RawCBOR(b)
     v, j = _parse(b, 0)
     if j != len(b):
         raise ValueError('trailing bytes in datum')
+    if form == 'pdata' and isinstance(v, cbor2.CBORTag):
+        try:
+            o = to_pdata(v)
+            if o.to_cbor() == b and cbor2.dumps([o], default=default_encoder)[1:] == b:
+                PDATA[0] += 1
+                return o
+        except Exception:
+            pass
     if isinstance(v, cbor2.CBORTag):
         v = RawPlutusData(v)
     if cbor2.dumps(v, default=default_encoder) != b:
         raise RuntimeError('primitive form of datum %s does not re-encode to the same bytes' % hexcbor)
-    PRIM[0] += 1
-    PRIM[1] += not v
+    if count:
+        PRIM[0] += 1
+        PRIM[1] += not v
     return v
+
+
+def mk_datum(hexcbor, form):
+    return mk_data(hexcbor, form)
 
 
 def mk_addr(script_addr, pay, net):
@@ -214,21 +284,23 @@ def mk_rdm(r):
     if r is None:
         return None
     units = ExecutionUnits(*r['units']) if r['units'] is not None else None
-    red = Redeemer(RawCBOR(bytes.fromhex(r['data'])), units)
+    red = Redeemer(mk_data(r['data'], r.get('form', 'raw'), count=False), units)
     if r['tag'] is not None:
         red.tag = RedeemerTag(r['tag'])
     return red
 
 
 def handler(case, payload):
-    global PRIM
-    PRIM = [0, 0]                                      # a fresh counter per case (mk_datum reads the global)
+    global PRIM, PDATA
+    PRIM = [0, 0]                                      # a fresh counter per case (mk_data reads the global)
+    PDATA = [0]
     ctx = Ctx(case, [])
     net = ctx.network
     scripts = [mk_script(s) for s in case['scripts']]
     res = {'script_hashes': [script_hash(s).payload.hex() for s in scripts], 'dflt': DFLT}
     utxos = [mk_utxo(u, scripts, net) for u in case['utxos']]
     res['prim'] = PRIM                                 # this case's list object; the add_* calls below still count into it
+    res['pdata'] = PDATA
     ctx.table = utxos
     B = case['build']
     b = TransactionBuilder(ctx, execution_memory_buffer=B['mem_buf'], execution_step_buffer=B['step_buf'],
@@ -306,14 +378,15 @@ def handler(case, payload):
         tx = b.build_and_sign([], change_address=change, auto_validity_start_offset=B['off_start'],
                               auto_ttl_offset=B['off_ttl'])
     except Exception as e:
-        res.update(stage='build', op=None, err=err_kind(e), msg=str(e)[:200])
+        res.update(stage='build', op=None, err=err_kind(e), msg=str(e)[:200], eval_ptrs=ctx.ptrs,
+                   ptrs_at_failure=sorted([r.tag.value if r.tag is not None else -1, r.index] for r in b._redeemer_list))
         return res
     res.update(stage='done', op=None, err=None, tx=tx.to_cbor().hex(),
                wits_nodup=b.build_witness_set(False).to_cbor().hex(),
                rl=[[rids.get(id(r), -1), r.tag.value if r.tag is not None else -1, r.index,
                     r.ex_units.mem if r.ex_units is not None else -1,
                     r.ex_units.steps if r.ex_units is not None else -1] for r in b._redeemer_list],
-               evals=ctx.evals, n_inputs=len(tx.transaction_body.inputs))
+               evals=ctx.evals, n_inputs=len(tx.transaction_body.inputs), eval_ptrs=ctx.ptrs)
     return res
 
 
